@@ -36,6 +36,9 @@ def nfkc(s):
 
 def lean_ident(s):
     s = nfkc(s)
+    if any(unicodedata.combining(ch) for ch in s):
+        # combining marks (z̄ₐ) are not identifier characters in Lean: drop them and tag the name
+        s = "".join(ch for ch in s if not unicodedata.combining(ch)) + "_bar"
     if s.startswith("_"):
         s = "u" + s
     return s
@@ -558,6 +561,8 @@ def generate():
     report["files"].append("Gen/HKern.lean")
     report["kernels"].update(py2lean_kern.generate_fillkern(fns, gen_dir, write_if_changed))
     report["files"].append("Gen/FillKern.lean")
+    report["kernels"].update(py2lean_kern.generate_hornerkern(fns, gen_dir, write_if_changed))
+    report["files"].append("Gen/HornerKern.lean")
     # ---- Dispatch.lean (for the line-protocol driver): every generated def by name ------------
     import re as _re
     cases = []
